@@ -53,7 +53,7 @@ CLAIMED = {
    ref="DESIGN.md §3 C03"),
  "C11": dict(
    text="GlobsetFilterer::check_event verdicts for generated configurations (0-3 filter patterns, 0-3 ignore patterns with negations, 0-2 extensions, optional whitelist, optional origin-level ignore file) and events of 0-3 paths (file/dir/unknown, inside/outside the origin) compared with the documented composition evaluated by the independent matcher (path-only matching relative to the origin, 1.x double-slash compatibility, extension rule), plus laws asserted independently: empty configuration passes everything, an ignore match beats a filter match, appending a non-negated ignore pattern never turns a rejection into a pass.",
-   note="Filter lists always contain at least one non-negated pattern (an all-negated list is not settled by the docs). The CLI layer (fs-event kinds, filter programs) is covered by C12 only as far as --fs-events.",
+   note="Filter lists always contain at least one non-negated pattern (an all-negated list is not settled by the docs). The CLI layer (fs-event kinds, filter programs) is covered by C12 only as far as --fs-events. Thorough tier adds a libFuzzer leg (c11_glob) that cross-checks the independent matcher against the glob library on byte-decoded pattern/path pairs (hardening the oracle shared by C03/C11/C14).",
    technique="proptest differential against an independent matcher + algebraic laws (monotonicity, precedence)",
    ref="DESIGN.md §3 C11"),
  "C14": dict(
@@ -63,7 +63,7 @@ CLAIMED = {
    ref="DESIGN.md §3 C14"),
  "C16": dict(
    text="Round trip from_str(to_string(e)) == e and equality of the serialised form with a reference encoder written from the documented field list, exhaustively for every filesystem event kind (41, hand-written spelling table), first-class signal, source and file type, and for generated events (0-8 tags in any order, UTF-8 paths incl. empty/non-ASCII/long, pids over u32, Signal::from(n) over i32, exit codes over the full i64/i32 ranges, metadata maps). Generated malformed tag objects of each known kind (random subsets of type-valid fields of all kinds, nulls, boundary codes) must parse, never be mistaken for another kind, be Unknown exactly when a required field is missing/contradictory, and re-serialise idempotently; structured raw JSON text must re-serialise to an equal event without panicking.",
-   note="Reference encoder and kind table are the harness's transcription of the documented format (--emit-events-to docs, README, pinned snapshots). libFuzzer leg not built; the raw leg is grammar-based proptest.",
+   note="Reference encoder and kind table are the harness's transcription of the documented format (--emit-events-to docs, README, pinned snapshots). Thorough tier adds a coverage-guided libFuzzer/ASan leg (fuzz/fuzz_targets/c16_json.rs, oracle inside the target: parse => re-serialise => equal, fixed point, no panic; fixed -runs/-seed, fresh corpus seeded from fuzz/seeds).",
    technique="exhaustive enumeration + proptest round-trip / differential against a reference encoder and decoder-totality oracle",
    ref="DESIGN.md §3 C16"),
  "C17": dict(
@@ -103,7 +103,7 @@ CLAIMED = {
    ref="DESIGN.md §3 C10"),
  "C19": dict(
    text="Complete enumeration of the finite conversion tables (every nix signal x 3 spellings x 10 casings, every documented Windows control name, every wait status for exit codes 0-255 and signals 1-64 with/without core bit) against a reference table transcribed from signal(7) and the crate docs, plus generated --map-signal strings through the real clap parser and generated arbitrary strings for case-insensitivity. Exhaustive for the tables, sampled for free-form strings.",
-   note="Linux x86-64 numbering; Windows cfg branches not executed; reference table is the harness's own transcription of POSIX numbers.",
+   note="Linux x86-64 numbering; Windows cfg branches not executed; reference table is the harness's own transcription of POSIX numbers. Thorough tier adds a libFuzzer leg (c19_signal: case-folding invariance and display round trip on arbitrary strings).",
    technique="exhaustive table enumeration + proptest generated strings against a reference table and round-trip/metamorphic (case-folding) relations",
    ref="DESIGN.md §3 C19"),
 }
